@@ -15,6 +15,10 @@ import RuxModel.Generated.Facts
     group <gid> <prefix> <hids> <usehids>      group middleware (Group argument, then Use inside the group)
     route <rid> <gid|-> <methods> <pattern> <name> <main> <usecalls>   usecalls: `-` or `h.h/h` (one `/` part per Use)
     notfound <hids> | notallowed <hids>
+    onpanic <hid>                the OnPanic hook; together with the action `X` (panic) of a prog it is outside this
+                                 model (Model/Conc: "not modelled: panics inside handlers"): the whole case is
+                                 answered `unsupported`, the harness checks it with its oracles (solo run, no two
+                                 in-flight requests on one pooled context)
     caps <len>:<cap> <len>:<cap>,...   length and capacity of Router.handlers and of every route.handlers, as the
                                  harness reads them from a scratch router (the lengths must be the model's)
     tbl stable <key> <rid> | tbl dyn <key> <rid> <params>    the pure tables, `params` = `-` or `k:v,k:v`
@@ -237,6 +241,7 @@ def concStep (s : ConcState) : List String → ConcState × String
       let m ← main.toNat?
       let us ← parseUseCalls usecalls
       pure { s with routes := s.routes ++ [{ name := nm, mws := gm ++ us, main := .user m, cap := 0 }] }
+  | ["onpanic", _] => ({ s with bad := true }, "unsupported")
   | ["notfound", hids] => setup s fun s => (parseHids hids).map fun hs => { s with noRoute := hs }
   | ["notallowed", hids] => setup s fun s => (parseHids hids).map fun hs => { s with noAllowed := hs }
   | ["caps", g, rs] =>
